@@ -22,17 +22,35 @@ class GetterErr(Exception): pass
 class BodyErr(Exception): pass
 
 
+class _ProbeList(list):
+    """a lock table that remembers which entries were written (to observe the entry a key is guarded by)"""
+    def __setitem__(self, i, v):
+        self.touched.add(i); list.__setitem__(self, i, v)
+
+
+_SLOT = {}
+def slot_of(key):
+    """The lock-table entry that guards `key`, OBSERVED: a lone caller takes and releases the read lock through get_set and the
+    entries it wrote are recorded (no reliance on how the code computes the index)."""
+    if key not in _SLOT:
+        from coba.context.cachers import ConcurrentCacher, MemoryCacher
+        pl = _ProbeList([0] * 65536); pl.touched = set()
+        cc = ConcurrentCacher(MemoryCacher(), list=pl, lock=threading.Lock())
+        with cc.get_set(key, lambda: "v") as _: pass
+        if len(pl.touched) != 1: raise RuntimeError("a lone get_set(%r) wrote %d lock-table entries" % (key, len(pl.touched)))
+        _SLOT[key] = next(iter(pl.touched))
+    return _SLOT[key]
+
+
 def real_keys():
-    """k1,k2: distinct keys whose 16-bit blake2b lock indices really collide; k3: another index."""
-    from coba.context.cachers import ConcurrentCacher, MemoryCacher
-    cc = ConcurrentCacher(MemoryCacher(), list=[0] * 65536, lock=threading.Lock())
+    """k1,k2: distinct keys whose lock-table entries really collide; k3: another entry."""
     seen = {}
     for i in range(200000):
         k = "key%d" % i
-        ix = cc._index(k)
+        ix = slot_of(k)
         if ix in seen:
             k1, k2 = seen[ix], k
-            k3 = next("key%d" % j for j in range(10) if cc._index("key%d" % j) != ix)
+            k3 = next("key%d" % j for j in range(10) if slot_of("key%d" % j) != ix)
             return {"k1": k1, "k2": k2, "k3": k3}
         seen[ix] = k
     raise RuntimeError("no colliding keys found")
@@ -204,7 +222,7 @@ def run_one(policy, progs, disk, keys, tmpdir, max_steps=4000):
         if t.exc is not None and not isinstance(t.exc, vsched._Aborted):
             errors.append("%s crashed: %r" % (t.name, t.exc))
     # index mapping: the recorded table index -> spec index (1 for k1/k2, 2 for k3)
-    ix = {cc._index(keys["k1"]): 1, cc._index(keys["k3"]): 2}
+    ix = {slot_of(keys["k1"]): 1, slot_of(keys["k3"]): 2}
     evs = []
     for e in s.events:
         e = dict(e); e.pop("task", None)
@@ -216,7 +234,7 @@ def run_one(policy, progs, disk, keys, tmpdir, max_steps=4000):
         if not progs[c]: evs.append(dict(e="begin", c=c))
     leaked = [i for i, v in enumerate(list.__iter__(arr)) if v != 0]
     return dict(trace=dict(prog=progs, ev=evs), verdict=verdict, errors=errors, leaked=leaked,
-                choices=list(s.choices), nen=list(s.nenabled), locks={str(k): v for k, v in cc._locks.items() if v != 0})
+                choices=list(s.choices), nen=list(s.nenabled), locks={str(k): v for k, v in getattr(cc, "_locks", {}).items() if v != 0})
 
 
 def rand_progs(rng, ncallers, maxops):
@@ -294,7 +312,8 @@ def run(ctx):
     step = 1
     for n in range(0, len(blob), step):
         open(os.path.join(d, "entry.gz"), "wb").write(blob[:n])
-        cc = C.ConcurrentCacher(C.DiskCacher(d))
+        table = [0] * 65536
+        cc = C.ConcurrentCacher(C.DiskCacher(d), list=table, lock=threading.Lock())
         outcome = None
         try:
             with cc.get_set("entry", lambda: expected_value("entry")) as f:
@@ -303,7 +322,7 @@ def run(ctx):
         except Exception as e:
             outcome = "error:" + type(e).__name__
         ctx.case("cut%d" % n)
-        leaked = [i for i, v in enumerate(cc._array) if v != 0]
+        leaked = [i for i, v in enumerate(table) if v != 0]
         if outcome == "served-partial":
             ctx.violation("disk-cut-served", "entry cut at byte %d of %d was served as if complete: %r" % (n, len(blob), got), dict(cut=n, size=len(blob)))
         if leaked:
